@@ -45,6 +45,7 @@ const (
 	OpIte
 	OpSelect
 	OpStore
+	OpArrCopy // (dst, src, doff, soff, n): dst with n elements of src from soff copied to doff
 )
 
 var opNames = map[Op]string{
@@ -52,7 +53,7 @@ var opNames = map[Op]string{
 	OpSdiv: "bvsdiv", OpSrem: "bvsrem", OpAnd: "bvand", OpOr: "bvor", OpXor: "bvxor",
 	OpBvNot: "bvnot", OpNeg: "bvneg", OpShl: "bvshl", OpLshr: "bvlshr", OpAshr: "bvashr",
 	OpConcat: "concat", OpEq: "=", OpUlt: "bvult", OpUle: "bvule", OpSlt: "bvslt", OpSle: "bvsle",
-	OpNot: "not", OpBAnd: "and", OpBOr: "or", OpIte: "ite", OpSelect: "select", OpStore: "store",
+	OpNot: "not", OpBAnd: "and", OpBOr: "or", OpIte: "ite", OpSelect: "select", OpStore: "store", OpArrCopy: "arrcopy",
 }
 
 // Sort encoding in Term.w: w>0 bit-vector of that width; 0 Bool;
@@ -739,6 +740,19 @@ func (s *Store) Select(arr, idx *Term) *Term {
 			}
 		case OpConstArr:
 			return s.rw(s.Const(ew, cur.val), OpSelect, ew, 0, 0, arr, idx)
+		case OpArrCopy:
+			// element idx of a block copy: inside the block it comes from src
+			rel := s.Bin(OpSub, idx, cur.a[2])
+			in := s.Cmp(OpUlt, rel, cur.a[4])
+			if in.IsFalse() {
+				cur = cur.a[0]
+				continue
+			}
+			from := s.Select(cur.a[1], s.Bin(OpAdd, cur.a[3], rel))
+			if in.IsTrue() {
+				return s.rw(from, OpSelect, ew, 0, 0, arr, idx)
+			}
+			return s.rw(s.Ite(in, from, s.Select(cur.a[0], idx)), OpSelect, ew, 0, 0, arr, idx)
 		}
 		break
 	}
@@ -794,6 +808,17 @@ func (s *Store) flatSelect(arr *Term, idx uint64) (*Term, bool) {
 type flatArr struct {
 	m    map[uint64]*Term
 	base *Term
+}
+
+// ArrCopy: the array dst with n elements of src, starting at soff, copied to
+// doff (memmove semantics are the caller's business: src is a value).  Only
+// ever observed through Select, which pushes through it; printed as a lambda
+// if an array term containing it has to reach the solver.
+func (s *Store) ArrCopy(dst, src, doff, soff, n *Term) *Term {
+	if n.op == OpConst && n.val == 0 {
+		return dst
+	}
+	return s.raw(OpArrCopy, dst.w, 0, "", 0, 0, dst, src, doff, soff, n)
 }
 
 func (s *Store) StoreArr(arr, idx, v *Term) *Term {
@@ -856,6 +881,11 @@ func emit(sb *strings.Builder, done map[int]string, roots ...*Term) []string {
 				body = fmt.Sprintf("((_ zero_extend %d) %s)", t.w-t.a[0].w, args[0])
 			case OpSext:
 				body = fmt.Sprintf("((_ sign_extend %d) %s)", t.w-t.a[0].w, args[0])
+			case OpArrCopy:
+				k := fmt.Sprintf("k!%d", t.id)
+				rel := fmt.Sprintf("(bvsub %s %s)", k, args[2])
+				body = fmt.Sprintf("(lambda ((%s (_ BitVec %d))) (ite (bvult %s %s) (select %s (bvadd %s %s)) (select %s %s)))",
+					k, arrIdx(t.w), rel, args[4], args[1], args[3], rel, args[0], k)
 			default:
 				body = "(" + opNames[t.op] + " " + strings.Join(args, " ") + ")"
 			}
@@ -1053,6 +1083,25 @@ func evalTerm(t *Term, as *Assign, memo map[int]interface{}) interface{} {
 			n.m[k] = v
 		}
 		n.m[ev(1)] = ev(2)
+		r = n
+	case OpArrCopy:
+		d := evalTerm(t.a[0], as, memo).(*arrVal)
+		src := evalTerm(t.a[1], as, memo).(*arrVal)
+		doff, soff, cnt := ev(2), ev(3), ev(4)
+		if cnt > 1<<20 {
+			panic("evalTerm: arrcopy of more than 2^20 elements")
+		}
+		n := &arrVal{def: d.def, m: make(map[uint64]uint64, len(d.m)+int(cnt))}
+		for k, v := range d.m {
+			n.m[k] = v
+		}
+		for i := uint64(0); i < cnt; i++ {
+			if v, ok := src.m[soff+i]; ok {
+				n.m[doff+i] = v
+			} else {
+				n.m[doff+i] = src.def
+			}
+		}
 		r = n
 	default:
 		panic("evalTerm: op")
